@@ -118,15 +118,18 @@ def undoLoop (b : Buf) : List (Text × Nat) → Buf × Outcome
       setDocument { b with undo := rest, redo := (b.text, b.cur) :: b.redo } t p false
     else undoLoop b rest
 
-def undo (b : Buf) : Buf × Outcome := undoLoop b b.undo
+/-- `Buffer.undo()` (after fix a69558c: a read-only buffer raises before the stacks are touched) -/
+def undo (b : Buf) : Buf × Outcome := if b.readOnly then (b, .readOnly) else undoLoop b b.undo
 
-/-- `Buffer.redo()` -/
+/-- `Buffer.redo()` (same guard) -/
 def redo (b : Buf) : Buf × Outcome :=
-  match b.redo with
-  | [] => (b, .ok)
-  | (t, p) :: _ =>
-    let b1 := saveUndo b false
-    setDocument { b1 with redo := b1.redo.drop 1 } t p false
+  if b.readOnly then (b, .readOnly)
+  else
+    match b.redo with
+    | [] => (b, .ok)
+    | (t, p) :: _ =>
+      let b1 := saveUndo b false
+      setDocument { b1 with redo := b1.redo.drop 1 } t p false
 
 /-- `Buffer.start_selection(type)` -/
 def startSelection (b : Buf) (typ : Nat) : Buf := { b with sel := some ⟨b.cur, typ⟩ }
